@@ -226,13 +226,14 @@ example : TextOK exText ∧ (parseEntries exText).isOk = true ∧
 
 /-- the theorem applied to the sample ledger -/
 example : ∃ f, format widthCjk exText = .ok f ∧ format widthCjk f = .ok f := by
+  have hok : (parseEntries exText).isOk = true := by decide +kernel
   cases hp : parseEntries exText with
   | ok es =>
     obtain ⟨f, h1, _, h3⟩ := C05_format_text widthCjk exText es (by decide +kernel) hp
     exact ⟨f, h1, h3⟩
-  | err e => exact absurd hp (by decide +kernel)
-  | panic s => exact absurd hp (by decide +kernel)
-  | fuelOut => exact absurd hp (by decide +kernel)
+  | err e => rw [hp] at hok; cases hok
+  | panic s => rw [hp] at hok; cases hok
+  | fuelOut => rw [hp] at hok; cases hok
 
 example : printPDec ⟨false, 10000, 2, some .comma3dot⟩ = "100.00".toList ∧
     canonPDec ⟨false, 10000, 2, some .comma3dot⟩ = ⟨false, 10000, 2, none⟩ := by decide +kernel
